@@ -6,6 +6,7 @@
 import PicoSVG.Model.Pipeline
 import PicoSVG.Proofs.IdsP
 import PicoSVG.Proofs.OrphanP
+import PicoSVG.Proofs.UrlP
 
 set_option linter.unusedSectionVars false
 namespace PicoSVG.C08
@@ -137,5 +138,19 @@ theorem no_orphan_after_purge (used : List String) (root : Node) :
   cases hid : Style.getKV m.attrs "id" with
   | none => simp [hid] at h
   | some i => exact ⟨i, rfl, by simpa [hid] using h⟩
+
+/-- C08 (how a paint reference is read): for every id made of characters other than `)`, quotes and white space, the value
+    `url(#id)` followed by *anything* — nothing, a fallback colour after white space, a fallback glued to the parenthesis
+    (`url(#g)red`, which 3210a58 made readable) — names that id; so the orphan scan counts the gradient as used and the
+    reference is not left dangling -/
+theorem reference_read_whatever_follows (i rest : List Char) (hne : i ≠ []) (hi : ∀ c ∈ i, SvgObj.idChar c = true) :
+    SvgObj.idOfTarget (String.ofList ("url(#".toList ++ i ++ ')' :: rest)) = .ok (String.ofList i) :=
+  SvgObj.idOfTarget_plain i rest hne hi
+
+example : SvgObj.idOfTarget (String.ofList ("url(#".toList ++ ['g'] ++ ')' :: "red".toList)) = .ok (String.ofList ['g']) :=
+  reference_read_whatever_follows ['g'] "red".toList (by simp) (by decide)
+example : SvgObj.idOfTarget (String.ofList ("url(#".toList ++ "Fills/sky".toList ++ ')' :: " none".toList))
+    = .ok (String.ofList "Fills/sky".toList) :=
+  reference_read_whatever_follows "Fills/sky".toList " none".toList (by decide) (by decide)
 
 end PicoSVG.C08
